@@ -11,6 +11,6 @@ QUICK_ALSO = {
     "C01": ["c08_flushdb_watch", "c04_zadd_atomic", "c06_engine_arith_overflow", "c06_reservation_bounded"],
     "C03": ["c06_engine_arith_overflow"],
     "C13": ["c11_wakeup_pop_logged"],
-    "C10": ["c09_lencodec_u32", "c09_strcodec_0to3"],
+    "C10": ["c09_lencodec_u32", "c09_strcodec_0to3", "c06_reservation_bounded"],
     "C07": ["c18_db_arg_exec"],
 }
